@@ -24,8 +24,9 @@ type Obligation struct {
 	Descr  string
 	Hyps   []*Term
 	Goal   *Term
-	Tags   string // build tags of the SSA this came from
-	Smoke  bool   // vacuity query: goal is "false" and the expected answer is NOT unsat
+	Tags   string   // build tags of the SSA this came from
+	Uses   []string // local axioms enabled for this obligation
+	Smoke  bool     // vacuity query: goal is "false" and the expected answer is NOT unsat
 	Result *Result
 }
 
@@ -140,30 +141,53 @@ func scalarLike(terms []*Term) map[string]bool {
 }
 
 func relevantHyps(hyps []*Term, goal *Term) []*Term {
-	skip := scalarLike(append(append([]*Term(nil), hyps...), goal))
-	arraySyms := func(t *Term) map[string]bool {
-		m := arraySyms(t)
-		for k := range skip {
-			delete(m, k)
-		}
-		return m
-	}
-	S := arraySyms(goal)
-	type hinfo struct {
-		arrs  map[string]bool
-		quant bool
-		in    bool
-	}
-	infos := make([]hinfo, len(hyps))
 	anyQ := false
-	for i, h := range hyps {
-		infos[i] = hinfo{arrs: arraySyms(h), quant: droppable(h)}
-		if infos[i].quant {
+	for _, h := range hyps {
+		if droppable(h) {
 			anyQ = true
+			break
 		}
 	}
 	if !anyQ {
 		return hyps
+	}
+	all := append(append([]*Term(nil), hyps...), goal)
+	hubs := scalarLike(all)
+	// object symbols used to address fields (m, msg, h, ...) occur in every heap read: hubs as well
+	var findObj func(t *Term)
+	findObj = func(t *Term) {
+		if t.Op == "select" && t.Args[0].Op == "select" && t.Args[0].Args[0].Op == "sym" && hubs[t.Args[0].Args[0].Name] {
+			if r := t.Args[0].Args[1]; r.Op == "sym" {
+				hubs[r.Name] = true
+			}
+		}
+		for _, a := range t.Args {
+			findObj(a)
+		}
+	}
+	for _, t := range all {
+		findObj(t)
+	}
+	symsOf := func(t *Term) map[string]bool {
+		m := map[string]string{}
+		freeSyms(t, m)
+		out := map[string]bool{}
+		for k := range m {
+			if hubs[k] || k == "alloc@0" || strings.HasPrefix(k, "alloc!") || k == "ghost.held@0" {
+				continue
+			}
+			out[k] = true
+		}
+		return out
+	}
+	S := symsOf(goal)
+	type hinfo struct {
+		syms map[string]bool
+		in   bool
+	}
+	infos := make([]hinfo, len(hyps))
+	for i, h := range hyps {
+		infos[i] = hinfo{syms: symsOf(h)}
 	}
 	for changed := true; changed; {
 		changed = false
@@ -172,8 +196,8 @@ func relevantHyps(hyps []*Term, goal *Term) []*Term {
 			if hi.in {
 				continue
 			}
-			share := len(hi.arrs) == 0
-			for a := range hi.arrs {
+			share := len(hi.syms) == 0
+			for a := range hi.syms {
 				if S[a] {
 					share = true
 					break
@@ -181,7 +205,7 @@ func relevantHyps(hyps []*Term, goal *Term) []*Term {
 			}
 			if share {
 				hi.in = true
-				for a := range hi.arrs {
+				for a := range hi.syms {
 					if !S[a] {
 						S[a] = true
 						changed = true
@@ -192,7 +216,7 @@ func relevantHyps(hyps []*Term, goal *Term) []*Term {
 	}
 	var out []*Term
 	for i, h := range hyps {
-		if infos[i].in || !infos[i].quant {
+		if infos[i].in || !droppable(h) {
 			out = append(out, h)
 		}
 	}
